@@ -16,13 +16,13 @@ open H8
 /-! ## CCR -/
 
 /-- CCR bit numbers: I UI H U N Z V C = 7 … 0 -/
-def bC : Nat := 0
-def bV : Nat := 1
-def bZ : Nat := 2
-def bN : Nat := 3
-def bH : Nat := 5
-def bUI : Nat := 6
-def bI : Nat := 7
+notation "bC" => (0 : Nat)
+notation "bV" => (1 : Nat)
+notation "bZ" => (2 : Nat)
+notation "bN" => (3 : Nat)
+notation "bH" => (5 : Nat)
+notation "bUI" => (6 : Nat)
+notation "bI" => (7 : Nat)
 
 def setFlag (ccr : BitVec 8) (bit : Nat) (v : Bool) : BitVec 8 :=
   if v then ccr ||| (1#8 <<< bit) else ccr &&& ~~~(1#8 <<< bit)
@@ -68,7 +68,7 @@ def alu2K {n : Nat} (op : Alu2) (d s : BitVec n) (ccr : BitVec 8) : Option (BitV
   | .xor => let r := d ^^^ s; (some r, nzClearV r ccr)
   | .addx =>
     -- Rd + Rs + C; H and C include the incoming carry; Z is only ever cleared
-    let cin : BitVec n := if flag ccr bC then 1 else 0
+    let cin : BitVec n := (BitVec.ofBool (flag ccr bC)).setWidth n
     let r := d + s + cin
     let c' := addFlags d s r ccr
     (some r, setFlag c' bZ (flag ccr bZ && r == 0))
@@ -96,10 +96,10 @@ def alu1K {n : Nat} (op : Alu1) (d : BitVec n) (ccr : BitVec 8) : BitVec n × Bi
   | .rotl => let r := d.rotateLeft 1; (r, setFlag (setFlag (nz r ccr) bV false) bC d.msb)
   | .rotr => let r := d.rotateRight 1; (r, setFlag (setFlag (nz r ccr) bV false) bC (d.getLsbD 0))
   | .rotxl =>
-    let r := (d <<< 1) ||| (if flag ccr bC then 1 else 0)
+    let r := (d <<< 1) ||| (BitVec.ofBool (flag ccr bC)).setWidth n
     (r, setFlag (setFlag (nz r ccr) bV false) bC d.msb)
   | .rotxr =>
-    let r := (d >>> 1) ||| (if flag ccr bC then (1 <<< (n - 1)) else 0)
+    let r := (d >>> 1) ||| ((BitVec.ofBool (flag ccr bC)).setWidth n <<< (n - 1))
     (r, setFlag (setFlag (nz r ccr) bV false) bC (d.getLsbD 0))
 
 /-! ## bit manipulation kernel -/
@@ -107,7 +107,7 @@ def alu1K {n : Nat} (op : Alu1) (d : BitVec n) (ccr : BitVec 8) : BitVec n × Bi
 /-- (new operand byte, new CCR) -/
 def bitK (op : BitOp) (v : BitVec 8) (n : BitVec 3) (ccr : BitVec 8) : BitVec 8 × BitVec 8 :=
   let m : BitVec 8 := 1#8 <<< n
-  let b : Bool := v.getLsbD n.toNat
+  let b : Bool := ((v >>> n) &&& 1#8) == 1#8
   let c : Bool := flag ccr bC
   match op with
   | .bset => (v ||| m, ccr)
